@@ -62,8 +62,23 @@ def directed_cases(tier):
     cfg = {"kind": "i", "size": 2, "order": "<", "cplx": 0, "form": "struct", "nsub": 1, "n": 1000000, "d": 3,
            "F": 1000, "S": 3600, "cont": 0, "comp": 0, "checksum": 0, "salt": 1, "uuid": "verif",
            "start": 697935246000000 - 5}
-    return [{"cfg": cfg, "ops": [{"op": "w", "idx": 0, "len": 12}],
-             "reads": [[697935246000000 - 5, 697935246000000], [697935246000000, 697935246000000]], "path": "py"}]
+    out = [{"cfg": cfg, "ops": [{"op": "w", "idx": 0, "len": 12}],
+            "reads": [[697935246000000 - 5, 697935246000000], [697935246000000, 697935246000000]], "path": "py"}]
+    # feature interactions that must be present in every run: multi-block calls x {continuous, gapped} x several
+    # subchannels x {struct complex, interleaved, real} through the Python writer (the extension splits block calls in
+    # continuous mode) and the C API, with a gap inside a file and one across a file boundary
+    base = {"order": "<", "n": 100, "d": 1, "F": 1000, "S": 10, "comp": 0, "checksum": 0, "salt": 11, "uuid": "verif",
+            "start": 170000000020}
+    ops = [{"op": "w", "idx": 0, "len": 30}, {"op": "b", "len": 90, "g": [40, 70, 130], "d": [0, 20, 50]},
+           {"op": "b", "len": 25, "g": [200, 260], "d": [0, 5]}]
+    reads = [[170000000015, 170000000400], [170000000090, 170000000150], [170000000100, 170000000100]]
+    for cont in (1, 0):
+        for kind, size, cplx, form, nsub in (("i", 2, 0, "struct", 3), ("i", 2, 1, "struct", 2), ("f", 4, 1, "native", 4),
+                                             ("u", 1, 1, "interleaved", 2)):
+            c = dict(base, kind=kind, size=size, cplx=cplx, form=form, nsub=nsub, cont=cont)
+            for path in ("py", "c"):
+                out.append({"cfg": c, "ops": [dict(o) for o in ops], "reads": reads, "path": path})
+    return out
 
 
 def effective_ops(case):
